@@ -92,4 +92,10 @@ CASES = [
     dict(name="sill-else-keeps-nugget-fitted", file=F, expect="R10.5", old='            # nugget = sill - var\n            para_select["nugget"] = False', new='            # nugget = sill - var\n            pass'),
     dict(name="twin-post-loop-explicit", kind="twin", file=F,
          old="            model.nugget = sill - var_tmp\n            fit_para[\"nugget\"] = model.nugget\n", new="            model.nugget = sill - var_tmp\n            fit_para[\"nugget\"] = model.nugget\n            fit_para[\"nugget\"] = model.nugget\n"),
+    dict(name="post-opt-args-ignore-standard-slots", file="covmodel/fit.py", expect="R10.1", old="            setattr(model, opt, popt[para_skip + opt_skip])\n            fit_para[opt] = popt[para_skip + opt_skip]", new="            setattr(model, opt, popt[opt_skip])\n            fit_para[opt] = popt[opt_skip]"),
+    dict(name="curve-opt-args-shifted", file="covmodel/fit.py", expect="R10.1", old="                setattr(model, opt, args[para_skip + opt_skip])", new="                setattr(model, opt, args[para_skip + opt_skip + 1])"),
+    dict(name="pack-opt-args-before-standard", file="covmodel/fit.py", expect="R10.1", accept_undecided=True,
+         old="    for par in DEFAULT_PARA:\n        if para[par]:\n            low_bounds.append(model.arg_bounds[par][0])", new="    for par in reversed(DEFAULT_PARA):\n        if para[par]:\n            low_bounds.append(model.arg_bounds[par][0])"),
+    dict(name="twin-post-single-cursor", kind="twin", file="covmodel/fit.py",
+         old="            setattr(model, opt, popt[para_skip + opt_skip])\n            fit_para[opt] = popt[para_skip + opt_skip]\n            opt_skip += 1", new="            setattr(model, opt, popt[para_skip])\n            fit_para[opt] = popt[para_skip]\n            para_skip += 1"),
 ]
